@@ -81,6 +81,53 @@ pub struct Wrappers {
     k: BTreeMap<Fieldless, Option<Newtype>>,
 }
 
+/// borrowed strings that serde routes through `deserialize_any` and its `Content` buffer
+#[derive(Deserialize, Serialize, Debug, PartialEq, Clone)]
+#[serde(untagged)]
+pub enum UntaggedBorrow<'a> {
+    N(i64),
+    S(&'a str),
+    P { #[serde(borrow)] p: Cow<'a, str> },
+}
+
+#[derive(Deserialize, Serialize, Debug, PartialEq, Clone)]
+#[serde(tag = "t")]
+pub enum TaggedBorrow<'a> {
+    A {
+        #[serde(borrow)]
+        s: &'a str,
+    },
+    B {
+        n: u8,
+    },
+}
+
+#[derive(Deserialize, Serialize, Debug, PartialEq, Clone)]
+pub struct FlatInner<'a> {
+    #[serde(borrow)]
+    name: &'a str,
+}
+
+#[derive(Deserialize, Serialize, Debug, PartialEq, Clone)]
+pub struct FlatBorrow<'a> {
+    id: u8,
+    #[serde(flatten, borrow)]
+    inner: FlatInner<'a>,
+}
+
+/// tuple struct / tuple variant with a defaulted tail that may be left out
+#[derive(Deserialize, Serialize, Debug, PartialEq, Clone)]
+pub struct Version(u8, #[serde(default, skip_serializing_if = "is_zero")] u8);
+fn is_zero(x: &u8) -> bool {
+    *x == 0
+}
+
+#[derive(Deserialize, Serialize, Debug, PartialEq, Clone)]
+pub enum TailEnum {
+    Line(u8, #[serde(default, skip_serializing_if = "Option::is_none")] Option<u8>),
+    Dot,
+}
+
 /// newtype-wrapped map keys
 #[derive(Deserialize, Serialize, Debug, PartialEq, Eq, PartialOrd, Ord, Clone)]
 pub struct Id(u32);
@@ -562,6 +609,11 @@ pub fn types() -> Vec<TypeCase> {
             g.out.extend_from_slice(b":7}");
             String::from_utf8(g.out).unwrap()
         }),
+        tc!("UntaggedBorrow", UntaggedBorrow, |r| (*r.pick(&["\"plain\"", "\"esc\\n\"", "5", "{\"p\":\"x\"}", "{\"p\":\"a\\tb\"}", "\"\"", "null"])).to_string()),
+        tc!("TaggedBorrow", TaggedBorrow, |r| (*r.pick(&["{\"t\":\"A\",\"s\":\"plain\"}", "{\"s\":\"plain\",\"t\":\"A\"}", "{\"t\":\"A\",\"s\":\"e\\\"sc\"}", "{\"t\":\"B\",\"n\":3}", "{\"t\":\"A\"}"])).to_string()),
+        tc!("FlatBorrow", FlatBorrow, |r| (*r.pick(&["{\"id\":1,\"name\":\"plain\"}", "{\"name\":\"plain\",\"id\":2}", "{\"id\":1,\"name\":\"e\\nsc\"}", "{\"id\":1}", "{\"id\":1,\"name\":\"x\",\"extra\":[1]}"])).to_string()),
+        tc!("Version", Version, |r| (*r.pick(&["[1]", "[1,0]", "[1,2]", "[1,2,3]", "[]", "1"])).to_string()),
+        tc!("TailEnum", TailEnum, |r| (*r.pick(&["{\"Line\":[7]}", "{\"Line\":[7,null]}", "{\"Line\":[7,8]}", "\"Dot\"", "{\"Line\":[]}", "{\"Line\":[1,2,3]}"])).to_string()),
         tc!("Known+skipped", Known, |r| {
             // the skipped member holds a number shape, a hostile literal or a whole document
             let v = match r.below(4) {
